@@ -1,6 +1,6 @@
 /-
 C11, global chain, assembly: on the canonical global view of slots `s`, uninstalling /
-installing / fast-installing at `p` with `last_p = prevOcc (occ s) p` yields the canonical
+installing / fast-installing at `p` with `last_p = prevOcc (occAt s) p` yields the canonical
 global view of the updated slots.
 -/
 import QmcProofs.FastOpsGlobal
@@ -9,7 +9,7 @@ namespace Qmc
 
 /-- canonical node, global part -/
 def canonNodeG (s : Slots) (q : Nat) (op : Op) : Node :=
-  { op := op, previousP := prevOcc (occ s) q, nextP := nextOcc (occ s) s.length q,
+  { op := op, previousP := prevOcc (occAt s) q, nextP := nextOcc (occAt s) s.length q,
     previousForVars := [], nextForVars := [] }
 
 /-- canonical global view -/
@@ -136,7 +136,7 @@ namespace FastOps
 
 /-- B-remove -/
 theorem uninstallG_canon (nb : Option Nat) (s : Slots) (p : Nat) (op : Op)
-    (hp : slotAt s p = some op) (a : Cursor) (ha : a.lastP = prevOcc (occ s) p) :
+    (hp : slotAt s p = some op) (a : Cursor) (ha : a.lastP = prevOcc (occAt s) p) :
     uninstallG ((canonG nb s).setOp p none) (canonNodeG s p op) a = canonG nb (s.set p none) := by
   have hpL := slotAt_lt hp
   have hocc := occ_of_slotAt hp
@@ -166,10 +166,10 @@ theorem uninstallG_canon (nb : Option Nat) (s : Slots) (p : Nat) (op : Op)
   · simp only [uninstallG, pEnds_decrBond, pEnds_setN, pEnds_uninstallGlobal, pEnds_setOp, pEnds_canonG,
       getNode_setOp, getNode_canonG, length_canonG, ha, canonNodeG, canonEnds, List.length_set, hP']
     rw [firstOcc_remove, lastOcc_remove hpL]
-    cases hprev : prevOcc (occ s) p with
+    cases hprev : prevOcc (occAt s) p with
     | none =>
       have hf := firstOcc_eq_of_prev_none hocc hpL hprev
-      cases hnext : nextOcc (occ s) s.length p with
+      cases hnext : nextOcc (occAt s) s.length p with
       | none =>
         have hl := lastOcc_eq_of_next_none hocc hpL hnext
         simp [hf, hl, zipOpt]
@@ -177,14 +177,14 @@ theorem uninstallG_canon (nb : Option Nat) (s : Slots) (p : Nat) (op : Op)
         obtain ⟨h1, h2, h3⟩ := nextOcc_gt hnext
         obtain ⟨onx, honx⟩ := occ_iff.mp h3
         have : ¬ p = nx := by omega
-        cases hl : lastOcc (occ s) s.length with
+        cases hl : lastOcc (occAt s) s.length with
         | none => rw [lastOcc_none_iff] at hl; have := hl p hpL; simp [hocc] at this
         | some l => simp [hf, zipOpt, this, honx]
     | some lp =>
-      cases hf : firstOcc (occ s) s.length with
+      cases hf : firstOcc (occAt s) s.length with
       | none => rw [firstOcc_none_iff] at hf; have := hf p hpL; simp [hocc] at this
       | some f =>
-        cases hnext : nextOcc (occ s) s.length p with
+        cases hnext : nextOcc (occAt s) s.length p with
         | none =>
           have hl := lastOcc_eq_of_next_none hocc hpL hnext
           simp [hl, zipOpt]
@@ -192,7 +192,7 @@ theorem uninstallG_canon (nb : Option Nat) (s : Slots) (p : Nat) (op : Op)
           obtain ⟨h1, h2, h3⟩ := nextOcc_gt hnext
           obtain ⟨onx, honx⟩ := occ_iff.mp h3
           have : ¬ p = nx := by omega
-          cases hl : lastOcc (occ s) s.length with
+          cases hl : lastOcc (occAt s) s.length with
           | none => rw [lastOcc_none_iff] at hl; have := hl p hpL; simp [hocc] at this
           | some l => simp [zipOpt, this, honx]
   · simp [uninstallG, varEnds_uninstallGlobal]
@@ -202,17 +202,17 @@ theorem uninstallG_canon (nb : Option Nat) (s : Slots) (p : Nat) (op : Op)
 
 
 theorem installNextP_canonG (nb : Option Nat) (s : Slots) (p : Nat) (hp : slotAt s p = none)
-    (a : Cursor) (ha : a.lastP = prevOcc (occ s) p) :
-    installNextP (canonG nb s) a = nextOcc (occ s) s.length p := by
+    (a : Cursor) (ha : a.lastP = prevOcc (occAt s) p) :
+    installNextP (canonG nb s) a = nextOcc (occAt s) s.length p := by
   have hocc := occ_false_of_slotAt hp
   unfold installNextP
   rw [ha]
-  cases hprev : prevOcc (occ s) p with
+  cases hprev : prevOcc (occAt s) p with
   | none =>
     simp only [pEnds_canonG, canonEnds]
     rw [← firstOcc_eq_of_prevOcc_none hprev hocc]
-    have := @first_some_iff_last_some (occ s) s.length
-    cases h1 : firstOcc (occ s) s.length <;> cases h2 : lastOcc (occ s) s.length <;>
+    have := @first_some_iff_last_some (occAt s) s.length
+    cases h1 : firstOcc (occAt s) s.length <;> cases h2 : lastOcc (occAt s) s.length <;>
       simp [h1, h2, zipOpt] at this ⊢
   | some lp =>
     obtain ⟨_, h2⟩ := prevOcc_lt hprev
@@ -222,7 +222,7 @@ theorem installNextP_canonG (nb : Option Nat) (s : Slots) (p : Nat) (hp : slotAt
 
 /-- B-insert -/
 theorem installG_canon (nb : Option Nat) (s : Slots) (p : Nat) (op : Op)
-    (hp : slotAt s p = none) (hpL : p < s.length) (a : Cursor) (ha : a.lastP = prevOcc (occ s) p) :
+    (hp : slotAt s p = none) (hpL : p < s.length) (a : Cursor) (ha : a.lastP = prevOcc (occAt s) p) :
     installG (canonG nb s) p op a = canonG nb (s.set p (some op)) := by
   have hocc := occ_false_of_slotAt hp
   have hP' := occ_set s p (some op) hpL
@@ -253,9 +253,9 @@ theorem installG_canon (nb : Option Nat) (s : Slots) (p : Nat) (op : Op)
     omega
   · simp only [pEnds_installGlobalCore, pEnds_canonG, canonEnds, List.length_set, hP']
     rw [firstOcc_insert hpL, lastOcc_insert hpL]
-    cases hprev : prevOcc (occ s) p with
+    cases hprev : prevOcc (occAt s) p with
     | none =>
-      cases hnext : nextOcc (occ s) s.length p with
+      cases hnext : nextOcc (occAt s) s.length p with
       | none =>
         obtain ⟨h1, h2⟩ := first_none_of_none_none hprev hnext hocc
         simp [h1, h2, zipOpt]
@@ -265,7 +265,7 @@ theorem installG_canon (nb : Option Nat) (s : Slots) (p : Nat) (op : Op)
         simp [hf, hnext, hl, zipOpt]
     | some lp =>
       obtain ⟨f, hf⟩ := first_some_of_prev_some hprev hpL
-      cases hnext : nextOcc (occ s) s.length p with
+      cases hnext : nextOcc (occAt s) s.length p with
       | none =>
         obtain ⟨h1, h2⟩ := prevOcc_lt hprev
         obtain ⟨l, hl⟩ := last_some_of_mem h2 (by omega : lp < s.length)
@@ -311,7 +311,7 @@ theorem fastInstall_canon (nb : Option Nat) (s : Slots) (p : Nat) (old o : Op)
 /-- the global view of `change` on a canonical global view is the canonical global view of the
 updated slots (all four paths of `mutate_p`) -/
 theorem changeG_canon (nb : Option Nat) (s : Slots) (p : Nat) (new : Option Op) (a : Cursor)
-    (hpL : p < s.length) (ha : a.lastP = prevOcc (occ s) p) :
+    (hpL : p < s.length) (ha : a.lastP = prevOcc (occAt s) p) :
     changeG (canonG nb s) p new a = canonG nb (s.set p new) := by
   unfold changeG
   rw [getNode_canonG]
@@ -334,7 +334,7 @@ theorem changeG_canon (nb : Option Nat) (s : Slots) (p : Nat) (new : Option Op) 
         rw [uninstallG_canon nb s p old hold a ha]
         have h0 : slotAt (s.set p none) p = none := by simp [slotAt_set, hpL]
         have hl0 : p < (s.set p none).length := by simpa using hpL
-        have ha0 : a.lastP = prevOcc (occ (s.set p none)) p := by
+        have ha0 : a.lastP = prevOcc (occAt (s.set p none)) p := by
           rw [occ_set s p none hpL, prevOcc_upd_self]; exact ha
         rw [installG_canon nb (s.set p none) p o h0 hl0 a ha0, List.set_set]
 
